@@ -87,3 +87,31 @@ Proof.
     destruct (Z.eqb_spec x A_ENGINE); [contradiction|]. destruct (Z.eqb_spec x A_IFUND); [contradiction|].
     destruct (payment <? 0); [lia|]. destruct (0 <? payment); lia.
 Qed.
+
+(* ---------- a settlement accrues on every position exactly once ---------- *)
+(* the numerator of the funding a position owes (funding_owed = this, divided by D, truncated) *)
+Definition funding_num (w : world) (v : addr) (p : position) : Z :=
+  (toZ (cumulative_premium_fraction (w_eng w) v) - toZ (p_lupf p)) * toZ (p_size p).
+
+Lemma funding_owed_num w v p : funding_owed w v p = Z.quot (funding_num w v p) (e_dec (ec (w_eng w))).
+Proof. reflexivity. Qed.
+
+Theorem pay_funding_tx_accrues f w s v w' vm :
+  exec_op f w (OEngine s (EPayFunding v) 0) = Ok w' ->
+  get_vamm w v = Ok vm -> wf0 (v_total (vs vm)) -> cpf_wf (w_eng w) v -> 0 < e_dec (ec (w_eng w)) ->
+  (forall x, o_twap (oracle_of w vm) (v_twap_interval (vc vm)) = Ok x -> 0 <= x) ->
+  (forall x, q_twap_price vm (w_env w) (v_twap_interval (vc vm)) = Ok x -> 0 <= x) ->
+  0 <= v_fperiod (vc vm) ->
+  if_engine (w_if w) = A_ENGINE -> e_ifund (ec (w_eng w)) = A_IFUND -> e_tmp (w_eng w) = None ->
+  exists vm' pf, settle_funding vm (w_env w) A_ENGINE (oracle_of w vm) = Ok (vm', pf) /\
+    (* no stored position is written: none is charged by the settlement itself *)
+    (forall u t, find_position (w_eng w') u t = find_position (w_eng w) u t) /\
+    (* and every position on this vAMM now owes pf x size more (before the division by D) *)
+    (forall p, funding_num w' v p = funding_num w v p + toZ pf * toZ (p_size p)).
+Proof.
+  intros H Hv Hwt Hc HD H1 H2 H3 H4 H5 Htmp.
+  destruct (pay_funding_tx _ _ _ _ _ _ H Hv Hwt Hc HD H1 H2 H3 H4 H5) as (vm' & pf & Hs & Hcpf & _).
+  exists vm', pf. split; [exact Hs|]. split.
+  - intros u t. apply (exec_engine_frame _ _ _ _ _ _ u t H); [exact Logic.I|exact Htmp].
+  - intros p. unfold funding_num. rewrite Hcpf. ring.
+Qed.
